@@ -5,20 +5,22 @@
 set -u
 export GOFLAGS=-mod=mod GOPROXY=off GOSUMDB=off GOTOOLCHAIN=local
 sd="$1"; wt="/tmp/wsv_$$"
+# SEED_FLAGS: extra go build/test flags (e.g. the quic-go test-build overlay, -ldflags=-checklinkname=0)
+SF="${SEED_FLAGS:-}"
 git -C /repo worktree add -q --detach "$wt" HEAD || exit 2
 trap 'git -C /repo worktree remove --force "$wt" >/dev/null 2>&1' EXIT
 pkgs=$(grep '^+++ b/' "$sd/patch.diff" | sed 's|^+++ b/||' | xargs -n1 dirname | sort -u)
 demos=$(ls "$sd"/*_test.go 2>/dev/null)
 res="SEED $sd"
 place_demo() { for d in $demos; do pk=$(grep -m1 '^package ' "$d" | awk '{print $2}' | sed 's/_test$//'); for p in $pkgs; do if [ "$(basename $p)" = "$pk" ] || grep -q "^package $pk\b" "$wt/$p"/*.go 2>/dev/null; then cp "$d" "$wt/$p/"; echo "$p/$(basename $d)"; break; fi; done; done; }
-run_demo() { local ok=PASS; for p in $pkgs; do ls "$wt/$p"/zz_seed*_test.go >/dev/null 2>&1 || continue; (cd "$wt" && go test -vet=off -count=1 -timeout 300s -run 'Seed|seed' "./$p/" >/tmp/wsv_out_$$ 2>&1) || ok=FAIL; done; echo $ok; }
+run_demo() { local ok=PASS; for p in $pkgs; do ls "$wt/$p"/zz_seed*_test.go >/dev/null 2>&1 || continue; (cd "$wt" && go test $SF -vet=off -count=1 -timeout 300s -run 'Seed|seed' "./$p/" >/tmp/wsv_out_$$ 2>&1) || ok=FAIL; done; echo $ok; }
 placed=$(place_demo)
 [ -z "$placed" ] && res="$res demo=none"
 without=$(run_demo)
 if (cd "$wt" && git apply "$sd/patch.diff"); then res="$res apply=ok"; else echo "$res apply=FAILED"; exit 1; fi
-b=ok; for p in $pkgs; do (cd "$wt" && go build "./$p/" >/dev/null 2>&1) || b=FAIL; done; res="$res build=$b"
+b=ok; for p in $pkgs; do (cd "$wt" && go build $SF "./$p/" >/dev/null 2>&1) || b=FAIL; done; res="$res build=$b"
 for d in $placed; do mv "$wt/$d" "$wt/$d.off"; done
-t=ok; for p in $pkgs; do (cd "$wt" && go test -vet=off -count=1 -timeout 600s "./$p/" >/tmp/wsv_t_$$ 2>&1) || { grep -q "build failed\|cannot find\|qtls" /tmp/wsv_t_$$ && t="${t}(testbin-unbuildable:$p)" || t=FAIL; }; done; res="$res tests=$t"
+t=ok; for p in $pkgs; do (cd "$wt" && go test $SF -vet=off -count=1 -timeout 600s "./$p/" >/tmp/wsv_t_$$ 2>&1) || { grep -q "build failed\|cannot find\|qtls" /tmp/wsv_t_$$ && t="${t}(testbin-unbuildable:$p)" || t=FAIL; }; done; res="$res tests=$t"
 for d in $placed; do mv "$wt/$d.off" "$wt/$d"; done
 with=$(run_demo)
 echo "$res demo_with_change=$with demo_without_change=$without"
